@@ -178,7 +178,7 @@ def _impls(ctx, method):
     return [b for b in ctx.f.bodies if b.impl_trait == OC and b.name == method and not b.from_expansion and b.kind != "Closure"]
 
 
-@rule("OPT-FIRSTSET", ["C08", "C01"], floor=6)
+@rule("OPT-FIRSTSET", ["C08", "C01", "C20"], floor=6)
 def opt_firstset(ctx):
     """get_initial_character_class over-approximates the first characters: default all(); CharClass its class;
     Repeat its child's; Atom {first char} (+ case closure under case_blind); Choice the union over all branches;
@@ -448,7 +448,7 @@ def opt_fixlen(ctx):
 # ------------------------------------------------------------------ ReProgram::new
 
 
-@rule("OPT-PROGRAM", ["C08", "C01", "C16", "C12"], floor=5)
+@rule("OPT-PROGRAM", ["C08", "C01", "C16", "C12", "C13", "C20"], floor=5)
 def opt_program(ctx):
     """ReProgram::new: prefix only from a leading Atom of the top-level Sequence, initial class only from a leading
     CharClass, OPT_HASBOL only for a leading '^'; minimum_length = operation.get_minimum_match_length();
@@ -506,7 +506,7 @@ ADDP = "re_program::ReProgram::add_precondition"
 ADDR = "re_program::ReProgram::add_repeat_precondition"
 
 
-@rule("OPT-PRECOND", ["C08", "C01"], floor=10)
+@rule("OPT-PRECOND", ["C08", "C01", "C20"], floor=10)
 def opt_precond(ctx):
     """add_precondition descends only into terms every match must contain: Atom/CharClass themselves; the child of
     a Capture; a repeat-family node only under min >= 1; all operations of a Sequence in order; never into Choice
